@@ -332,6 +332,8 @@ enum Item {
     Prefix { a: u8, b: u8 },
     /// a specific set in all orders
     AllOrdersOf([u8; 7]),
+    /// the given ranks of `suit` plus two random fillers of other suits (dev-profile batch)
+    FlushSample { suit: u8, ranks: Vec<u8> },
 }
 
 fn multisets() -> Vec<[u8; 13]> {
@@ -417,6 +419,22 @@ fn run_item(w: &mut Worker, item: &Item) {
             }
         }
         Item::AllOrdersOf(set) => w.eval_all_orders(set),
+        Item::FlushSample { suit, ranks } => {
+            let mut rng = Rng::derive(w.seed, "flush-sample", (*suit as u64) << 16 | ranks.iter().fold(0u64, |a, r| a | 1 << r));
+            let own: Vec<u8> = ranks.iter().map(|r| r * 4 + suit).collect();
+            let others: Vec<u8> = (0..52u8).filter(|c| c % 4 != *suit).collect();
+            for _ in 0..2 {
+                let mut v = [0u8; 7];
+                for (i, c) in own.iter().enumerate() {
+                    v[i] = *c;
+                }
+                let fill = rng.sample(others.len(), 7 - own.len());
+                for (i, j) in fill.iter().enumerate() {
+                    v[own.len() + i] = others[*j];
+                }
+                w.eval_set(&sorted7(v));
+            }
+        }
         Item::Prefix { a, b } => {
             let rest: Vec<u8> = (b + 1..52).collect();
             for_each_subset(rest.len(), 5, |idx| {
@@ -566,6 +584,8 @@ pub fn run(ctx: &Ctx, which: Which) -> Report {
     if hook_events == 0 {
         report.inconclusive("the table-lookup hook never fired: the evaluator was not observed");
     }
+    // the same evaluator built with overflow checks and debug assertions
+    dev_pass(ctx, which, &mut report);
     if thorough {
         // the oracle must reproduce the published category frequencies over all sets
         report.set("oracle_category_frequencies_over_all_sets", Json::arr(set_cat_counts.iter().map(|c| Json::Int(*c as i128))));
@@ -604,8 +624,78 @@ pub fn run(ctx: &Ctx, which: Which) -> Report {
     report
 }
 
+/// The dev-profile batch (runs in a child built with overflow checks and debug assertions):
+/// every rank multiset under two flush-free suit assignments, every flush mask of one suit
+/// with two random fillers, random sets; shard `part` of `parts`.
+fn dev_batch(which: Which, seed: u64, part: usize, parts: usize) -> Report {
+    let shared = Shared::new();
+    let mut w = Worker::new(which, seed, &shared);
+    let mut items: Vec<Item> = Vec::new();
+    for (i, mult) in multisets().into_iter().enumerate() {
+        items.push(Item::Multiset { mult, variants: 2, index: i as u64 });
+    }
+    for suit in 0..4u8 {
+        for k in 5..=7usize {
+            for_each_subset(13, k, |idx| {
+                items.push(Item::FlushSample { suit, ranks: idx.iter().map(|r| *r as u8).collect() });
+            });
+        }
+    }
+    for i in 0..40 {
+        items.push(Item::Random { n: 1000, index: 1_000_000 + i });
+    }
+    for (i, item) in items.iter().enumerate() {
+        if i % parts == part {
+            run_item(&mut w, item);
+        }
+    }
+    let out = w.finish();
+    let mut report = out.report;
+    report.count("dev_profile_evaluations", report.evaluations);
+    report
+}
+
+/// Parent side of the dev-profile pass.
+fn dev_pass(ctx: &Ctx, which: Which, report: &mut Report) {
+    use crate::child::{self, ChildOutcome};
+    let exe = match Ctx::exe_for("debug") {
+        Some(e) => e,
+        None => {
+            report.inconclusive("no dev-profile binary available (VERIF_DEBUG_EXE not set)");
+            return;
+        }
+    };
+    let parts = 12usize;
+    let id = if which == Which::C01 { "C01" } else { "C07" };
+    let results = crate::util::par_run(parts, 1, |_| Report::new(), |r, part| {
+        let case = Json::obj().set("kind", Json::str("dev-batch")).set("seed", Json::Int(ctx.seed as i128)).set("part", Json::Int(part as i128)).set("parts", Json::Int(parts as i128));
+        match child::run_case(&exe, id, &case, 8 << 20, std::time::Duration::from_secs(900)) {
+            ChildOutcome::Reported(doc) => {
+                let ev = r.evaluations;
+                child::merge_child_report(r, &doc, "debug:");
+                r.evaluations = ev;
+            }
+            ChildOutcome::Crashed { signal, code, stack_overflow, stderr_tail } => r.violate(
+                format!("debug:dev-batch-{}:crash", part),
+                format!("[dev profile] the evaluation batch {} died (signal {:?}, code {:?}, stack overflow {}): {}", part, signal, code, stack_overflow, stderr_tail),
+                case,
+            ),
+            ChildOutcome::Timeout { after_s } => r.inconclusive(format!("dev-profile batch {} timed out after {:.0}s", part, after_s)),
+            ChildOutcome::SpawnFailed(e) => r.inconclusive(format!("dev-profile batch {}: {}", part, e)),
+        }
+    });
+    for r in results {
+        report.merge(r);
+    }
+    child::cleanup_scratch();
+}
+
 pub fn replay(case: &Json, which: Which) -> Report {
     let mut report = Report::new();
+    if case.get("kind").and_then(|k| k.as_str()) == Some("dev-batch") {
+        let get = |k: &str| case.get(k).and_then(|v| v.as_i128()).unwrap_or(0);
+        return dev_batch(which, get("seed") as u64, get("part") as usize, (get("parts") as usize).max(1));
+    }
     let text = case.get("cards").and_then(|v| v.as_str()).unwrap_or("");
     let ids = match crate::conv::parse_cards_text(text) {
         Some(v) if v.len() == 7 => v,
